@@ -44,7 +44,7 @@ static struct {
 	int notified;
 	int ret[RT_MAXT];
 	int refs;
-	nsync_atomic_uint32_ *nwrec[RT_MAXT]; int nwlive[RT_MAXT];
+	nsync_atomic_uint32_ *nwrec[RT_MAXT]; int nwlive[RT_MAXT], nwcnt[RT_MAXT], nw2init[RT_MAXT];
 	int sleeps[RT_MAXT], inlock[RT_MAXT];
 	int mu_freed; uint32_t word_at_free;
 	int done_ops[RT_MAXT];
@@ -107,6 +107,13 @@ static void check_ret (int t, const struct op *o, int r, const char *what) {
 	else if (!S.mu_freed && (o->lt == 1 || o->lt == 2)) api_held_checks (t, o->lt);
 }
 
+/* the cancel note as the second object of an nsync_wait_n: at this layer its three functions are atomic regions (their own
+   locking is specified in Note.tla); with VERIF_FINE they run at full granularity */
+static nsync_time nr_ready (void *v, struct nsync_waiter_s *nw) { nsync_time r; if (!fine_notes) rt_region_begin (OP_REGION, v, "nready"); r = (*nsync_note_waitable_funcs.ready_time) (v, nw); if (!fine_notes) rt_region_end (); return r; }
+static int nr_enq (void *v, struct nsync_waiter_s *nw) { int r; if (!fine_notes) rt_region_begin (OP_REGION, v, "nenq"); r = (*nsync_note_waitable_funcs.enqueue) (v, nw); if (!fine_notes) rt_region_end (); return r; }
+static int nr_deq (void *v, struct nsync_waiter_s *nw) { int r; if (!fine_notes) rt_region_begin (OP_REGION, v, "ndeq"); r = (*nsync_note_waitable_funcs.dequeue) (v, nw); if (!fine_notes) rt_region_end (); return r; }
+static const struct nsync_waitable_funcs_s note_region_funcs = { &nr_ready, &nr_enq, &nr_deq };
+
 /* nsync_mu_assert_held / nsync_mu_rassert_held / nsync_mu_is_reader, asked by a thread that has just obtained the mutex in mode
    `mode` (1 write, 2 read): they must agree (a failed assertion panics: O-crash).  Run without scheduling points: they only load the word. */
 static void api_held_checks (int t, int mode) {
@@ -168,22 +175,24 @@ static void client (void *arg) {
 			break; }
 		case O_WAITN: case O_WAITNLOOP: {
 			S.waits_started[t]++;
-			struct nsync_waitable_s wa, *pwa = &wa;
-			int r;
+			struct nsync_waitable_s wa[2], *pwa[2];
+			int r, cnt = (o->op == O_WAITN && o->cn) ? 2 : 1;
 			if (o->op == O_WAITNLOOP) {
 				__tsan_read4 (&S.cells[o->v - 1]);
 				if (!(S.cells[o->v - 1] == 0 && S.ret[t] != 1)) { ip++; S.ret[t] = -1; break; }
 			} else ip++;
-			wa.v = S.cv; wa.funcs = &nsync_cv_waitable_funcs;
+			wa[0].v = S.cv; wa[0].funcs = &nsync_cv_waitable_funcs; pwa[0] = &wa[0];
+			wa[1].v = S.note; wa[1].funcs = &note_region_funcs; pwa[1] = &wa[1];
 			rt_dead_clear (t);
-			S.picked[t] = 0; S.nwrec[t] = NULL; S.nwlive[t] = 1;
-			r = nsync_wait_n (S.mu, v_lock, v_unlock, deadline (o->dl), 1, &pwa);
+			S.picked[t] = 0; S.nwrec[t] = NULL; S.nwlive[t] = 1; S.nwcnt[t] = cnt; S.nw2init[t] = 0;
+			r = nsync_wait_n (S.mu, v_lock, v_unlock, deadline (o->dl), cnt, pwa);
 			S.nwlive[t] = 0;
-			if (S.picked[t] && r != 0) rt_violation ("O-ret", "an nsync_wait_n on a cv that a signal/broadcast had unlinked (consumed wake-up) returned count (timeout) instead of 0");
-			if (S.nwrec[t]) rt_dead_mark ((char *) S.nwrec[t] - offsetof (struct nsync_waiter_s, waiting), sizeof (struct nsync_waiter_s), t, "nsync_wait_n record");
+			if (S.picked[t] && r != 0) rt_violation ("O-ret", "an nsync_wait_n on a cv that a signal/broadcast had unlinked (consumed wake-up) returned %s instead of 0", r == cnt ? "count (timeout)" : "another index");
+			if (S.nwrec[t]) rt_dead_mark ((char *) S.nwrec[t] - offsetof (struct nsync_waiter_s, waiting), sizeof (struct nsync_waiter_s) * (size_t) cnt, t, "nsync_wait_n record");
 			S.ret[t] = r;
-			if (r == 1 && !(o->dl > 0 && rt_now () >= RT_T0 + o->dl))
+			if (r == cnt && !(o->dl > 0 && rt_now () >= RT_T0 + o->dl))
 				rt_violation ("O-ret", "nsync_wait_n returned count (timeout) at clock %ld but its deadline is %d", (long) (rt_now () - RT_T0), o->dl);
+			if (cnt == 2 && r == 1 && !S.notified) rt_violation ("O-ret", "nsync_wait_n returned the note's index but the note is not notified");
 			if (rt_held_by (S.mu, t) != 1) rt_violation ("O-ret", "nsync_wait_n returned without the mutex held in write mode");
 			break; }
 		case O_SIGNAL: ip++; nsync_cv_signal (S.cv); break;
@@ -317,6 +326,7 @@ static void obs (char *buf, size_t n) {
 	PUTARR ("waiting", i < nwtab ? *(volatile uint32_t *) &wtab[i]->nw.waiting : 0);
 	PUTARR ("rmc", i < nwtab ? *(volatile uint32_t *) &wtab[i]->remove_count : 0);
 	PUTARR ("nww", (S.nwrec[i] && S.nwlive[i]) ? *(volatile uint32_t *) S.nwrec[i] : 0);     /* the record exists only while its nsync_wait_n call is in progress */
+	PUTARR ("nww2", (S.nwrec[i] && S.nwlive[i] && S.nwcnt[i] == 2 && S.nw2init[i]) ? *(volatile uint32_t *) ((char *) S.nwrec[i] + sizeof (struct nsync_waiter_s)) : 0);
 	PUTARR ("sem", i < nwtab ? *(volatile int *) &wtab[i]->sem : 0);
 	PUTARR ("held", rt_held_by (S.mu, i));
 	o += (size_t) snprintf (buf + o, n - o, " data=[");
@@ -373,7 +383,11 @@ static void note_step (int t) {
 	count_queued ();
 	if ((o->kind == OP_ST || o->kind == OP_LD) && o->addr && rt_stack_owner (o->addr) >= 0) {
 		rt_op_fn (o, fb, sizeof fb);
-		if (!strcmp (fb, "nsync_wait_n") || !strcmp (fb, "cv_enqueue") || !strcmp (fb, "cv_ready_time")) S.nwrec[rt_stack_owner (o->addr)] = o->addr;
+		if (!strcmp (fb, "nsync_wait_n") || !strcmp (fb, "cv_enqueue") || !strcmp (fb, "cv_ready_time")) {
+			int ow = rt_stack_owner (o->addr);
+			if (!(S.nwlive[ow] && S.nwrec[ow])) S.nwrec[ow] = o->addr;        /* the first record (the cv's) of the call in progress */
+			else if (o->kind == OP_ST && (char *) o->addr == (char *) S.nwrec[ow] + sizeof (struct nsync_waiter_s)) S.nw2init[ow] = 1;
+		}
 	}
 	if (o->kind == OP_ST && o->a == 0 && o->addr) {
 		/* a signaller that clears the waiting flag of another thread's nsync_wait_n record has unlinked it: it owes that call index 0 */
